@@ -50,6 +50,20 @@ def dwarf_view(dw):
 
     def do_units():
         out = []
+        if _OPTS.get('walk') == 'lockstep':
+            # all units walked at once, one entry of each in turn (every iterator alive while the others advance)
+            cus = list(dw.iter_CUs())
+            units.extend(cus)
+            its = [iter(cu.iter_DIEs()) for cu in cus]
+            acc = [[] for _ in cus]
+            live = set(range(len(cus)))
+            while live:
+                for i in sorted(live):
+                    try:
+                        acc[i].append(canon(next(its[i])))
+                    except StopIteration:
+                        live.discard(i)
+            return tuple((canon(cu), tuple(a)) for cu, a in zip(cus, acc))
         for cu in dw.iter_CUs():
             units.append(cu)
             out.append((canon(cu), tuple(canon(d) for d in cu.iter_DIEs())))
@@ -108,6 +122,8 @@ def dwarf_view(dw):
 
 
 _RELOCATE = [None]      # relocate_dwarf_sections argument of the current run (None = the library's default)
+_OPTS = {}              # how the view of the current run is taken: 'again' = number of get_dwarf_info() calls made and dropped before
+                        # the one that is viewed (same ELFFile); 'walk' = 'lockstep': all units' entry iterators advanced in turn
 
 
 def open_view(data, peers=None, follow=True, loader=True, peer_faults=None, relative_base=None):
@@ -149,6 +165,8 @@ def open_view(data, peers=None, follow=True, loader=True, peer_faults=None, rela
         out['has_link'] = elf.has_dwarf_link()
         link = elf.get_dwarf_link()
         out['link'] = None if link is None else (bytes(link.filename), link.checksum)
+        for _ in range(_OPTS.get('again') or 0):
+            elf.get_dwarf_info(follow_links=follow, **kw)
         dw = elf.get_dwarf_info(follow_links=follow, **kw)
         out['outcome'] = 'view'
         out['view'] = dwarf_view(dw)
@@ -242,6 +260,10 @@ def _c11_plan(tier, seed):
         if info[n]['sup']:
             for cfg in ('sup_plain', 'sup_main_gabi', 'sup_peer_gabi', 'sup_both_gabi', 'sup_noloader', 'sup_nofollow', 'sup_split_link'):
                 plan.append((n, cfg, None))
+            # the units (which import partial units of the supplementary file) walked all at once, and on a second DWARFInfo
+            for cfg in ('sup_plain', 'sup_both_gabi'):
+                plan.append((n, cfg, {'walk': 'lockstep'}))
+                plan.append((n, cfg, {'again': 1}))
         if not info[n]['sup']:
             # bytes behind the checksum; the library's path-based loader with names and directories that are not UTF-8
             plan.append((n, 'split_link', {'peer': 'plain', 'link_trailing': 4}))
@@ -252,6 +274,9 @@ def _c11_plan(tier, seed):
             # relocatable objects: the caller's relocate_dwarf_sections=False must reach every container alike
             for cfg, params in (('identity', {}), ('gabi', {'level': 6}), ('split_link', {'peer': 'plain'}), ('split_link', {'peer': 'gabi'})):
                 plan.append((n, cfg, dict(params, relocate=False)))
+            # ... and a second / third get_dwarf_info() on the same ELFFile sees what the first one saw (relocations applied once)
+            for cfg, params in (('gabi', {'level': 6}), ('zdebug_mixed', {'level': 6}), ('split_link', {'peer': 'gabi'})):
+                plan.append((n, cfg, dict(params, again=2)))
     # a large, highly compressible tail on .debug_str (the view never looks at it: strings are fetched by offset): compressed
     # payloads spanning several read chunks with an extreme inflation ratio in the first one
     big = [n for n in elig if '.debug_str' in info[n]['debug'] and not info[n]['sup']][:6 if tier == 'quick' else 40]
@@ -308,6 +333,11 @@ def _c11_gen(seed, tier, index):
         params['pos'] = r.random()
     if _ST['info'][n]['relocs'] and r.random() < 0.25:
         params['relocate'] = False
+    o = substream(rs, 'opts')
+    if o.random() < 0.3:
+        params['again'] = o.choice([1, 2])
+    if o.random() < 0.3:
+        params['walk'] = 'lockstep'
     return dict(engine=ENGINE, mode='C11', file=n, config=cfg, params=params, seeded=rs)
 
 
@@ -327,8 +357,17 @@ def _plain_image(data, pad_str=0):
 
 def _ref_view(name, follow=False):
     """View of the plain container (reference), cached per process."""
-    key = (name, follow, _RELOCATE[0])
+    key = (name, follow, _RELOCATE[0], _OPTS.get('again'))
     c = _ST.setdefault('v0', {})
+    walk = _OPTS.pop('walk', None)         # the reference is the plain container walked sequentially, however the run walks
+    try:
+        return _ref_view2(name, follow, key, c)
+    finally:
+        if walk:
+            _OPTS['walk'] = walk
+
+
+def _ref_view2(name, follow, key, c):
     if key not in c:
         data = env.corpus_bytes(name)
         img = _plain_image(data)
@@ -463,7 +502,7 @@ def _c11_corpus_link(spec):
         else:
             for part in _diff_views(ref['view'], res['view'])[:3]:
                 viol('view-differs', 'identical ' + part, 'different ' + part, part)
-            if res['loads'] != [stored]:
+            if res['loads'] != [stored] * (1 + (_OPTS.get('again') or 0)):
                 viol('loader-path', [stored.decode()], [x.decode('utf-8', 'replace') for x in res['loads']])
     elif cfg == 'corpus_link_nofollow':
         if res['outcome'] != 'view' or res['view']['has_debug_info'] or res['loads']:
@@ -480,10 +519,13 @@ def _c11_corpus_link(spec):
 
 def _c11_exec(spec):
     _RELOCATE[0] = (spec.get('params') or {}).get('relocate')
+    _OPTS.clear()
+    _OPTS.update({k: v for k, v in (spec.get('params') or {}).items() if k in ('again', 'walk') and v})
     try:
         return _c11_exec2(spec)
     finally:
         _RELOCATE[0] = None
+        _OPTS.clear()
 
 
 def _c11_exec2(spec):
@@ -613,7 +655,7 @@ def _c11_exec2(spec):
         elif cfg == 'split_link':
             res = open_view(mdata, peers=peers, follow=True, loader=True, relative_base=rbase)
             same_view(res, cfg)
-            if res['loads'] != [linkname]:
+            if res['loads'] != [linkname] * (1 + (_OPTS.get('again') or 0)):      # one request per get_dwarf_info() call
                 viol('loader-path', [linkname.decode('utf-8', 'replace')], [x.decode('utf-8', 'replace') for x in res['loads']])
             if res.get('link') != (linkname, elfedit.crc32(peer)) or not res.get('has_link'):
                 viol('link-record', [linkname.decode('utf-8', 'replace'), elfedit.crc32(peer)], jsonable(canon(res.get('link'))))
@@ -1047,11 +1089,20 @@ def _c09_exec(spec):
         queries.sort()
     p_disp = r.choice([0, 0.5, 1.0])
     nsym_b = [None]
+    p_mid = r.choice([0, 0, 0.3, 1.0])       # the cursor is also displaced between two elements of one library iterator
+
+    def drain(it):
+        out = []
+        for x in it:
+            out.append(canon(x))
+            if p_mid and r.random() < p_mid:
+                stream.displace(r.choice([0, 1, stream.size, r.randrange(stream.size + 1)]))
+        return out
     for q in queries:
         if p_disp and r.random() < p_disp:
             stream.displace(r.choice([0, 1, stream.size, stream.size + 9, r.randrange(stream.size + 1)]))
         if q == 'tags':
-            st, val = _try(lambda: [canon(t) for t in seg.iter_tags()])
+            st, val = _try(lambda: drain(seg.iter_tags()))
             if st != 'ok' or val != a['tags']:
                 viol('tags', 'the section view: %d tags' % len(a['tags']), jsonable(val, 500) if st != 'ok' else _first_diff(a['tags'], val))
         elif q.startswith('tags_filtered:'):
@@ -1089,7 +1140,7 @@ def _c09_exec(spec):
                     violations.append(dict(key='%s|num_symbols|%s' % (tagmode, tabs), check='symbol count recovered through the hash table',
                                            expected=len(a['syms']), observed=jsonable(val, 300)))
         elif q == 'symbols':
-            st, val = _try(lambda: [canon(s) for s in seg.iter_symbols()])
+            st, val = _try(lambda: drain(seg.iter_symbols()))
             if a['syms'] is not None:
                 if st != 'ok':
                     viol('symbols', '%d symbols' % len(a['syms']), jsonable(val, 300))
@@ -1117,7 +1168,7 @@ def _c09_exec(spec):
                     viol('get_symbol_by_name', jsonable(canon(exp), 300), jsonable(got, 300))
                     break
         elif q == 'reltabs':
-            st, val = _try(lambda: {k: [canon(x) for x in t.iter_relocations()] for k, t in seg.get_relocation_tables().items()})
+            st, val = _try(lambda: {k: drain(t.iter_relocations()) for k, t in seg.get_relocation_tables().items()})
             if st != 'ok':
                 viol('relocation tables', sorted(a['reltabs']), jsonable(val, 300))
             else:
@@ -1136,7 +1187,7 @@ def _c09_exec(spec):
     if truth is not None and variant is None:
         _truth_check(elf.get_segment(info['seg_index']), truth, viol)
     return dict(spec=spec, violations=violations, digest=pdigest(log, [v['key'] for v in violations]), nontrivial=fired,
-                nt_digest=pdigest(name, mode, queries, p_disp), evaluations=1, sim_time=stream.clock.seq,
+                nt_digest=pdigest(name, mode, queries, p_disp, p_mid), evaluations=1, sim_time=stream.clock.seq,
                 faults={'shloss_' + mode: [1, int(fired)], **({'decoy_pointer_tag': [1, 1]} if variant == 'decoy' else {}), **({'other_osabi_image_read_first': [1, 1]} if warm else {})},
                 probes={'queries': len(queries), 'nsym_known': int(a['syms'] is not None), 'synthetic_image_runs': int(name.startswith('synthdyn:'))},
                 sample=None)
